@@ -10,6 +10,7 @@ import MtailVerif.Driver.Rt
 import MtailVerif.Driver.C16
 import MtailVerif.Driver.C18
 import MtailVerif.Driver.C17
+import MtailVerif.Driver.C19
 /-! `mtailmodel <prop>`: reads the case lines written by the Go harness on stdin and prints
     `<id> OBS <observation>` computed by the Lean model.  Core Lean only (links as an exe). -/
 open MtailVerif MtailVerif.Driver
@@ -27,6 +28,7 @@ def handlerFor (prop : String) : Option (List String → String) :=
   | "C16" => some C16.handle
   | "C18" => some C18.handle
   | "C17" => some C17.handle
+  | "C19" => some C19.handle
   | "C14" => some Rt.handle
   | "C06" => some Rt.handle
   | "C25" => some Rt.handle
